@@ -22,7 +22,7 @@ func Any(parsers ...parsley.Parser) parser.Func {
 	return parser.Func(func(ctx *parsley.Context, leftRecCtx data.IntMap, pos parsley.Pos) (parsley.Node, data.IntSet, parsley.Error) {
 		cp := data.EmptyIntSet
 		var res parsley.Node
-		var err parsley.Error
+		var err, notFoundErr parsley.Error
 		for _, p := range parsers {
 			ctx.RegisterCall()
 			res2, cp2, err2 := p.Parse(ctx, leftRecCtx, pos)
@@ -31,11 +31,16 @@ func Any(parsers ...parsley.Parser) parser.Func {
 			if err2 != nil && (err == nil || err2.Pos() >= err.Pos()) {
 				if err2.Pos() > pos || !parsley.IsNotFoundError(err2) {
 					err = err2
+				} else {
+					notFoundErr = err2
 				}
 			}
 		}
 
 		if res == nil {
+			if err == nil {
+				err = notFoundErr
+			}
 			return nil, cp, err
 		}
 
